@@ -87,3 +87,9 @@ def oracle(c):
                 name = {"fault(": "memory-fault-or-ub-check", "!outside": "slice-outside-input", "!placement": "placement-dependent-result"}[m]
                 out.append((name, {"line": line[:300], "impl": o[:400]}))
     return out
+
+
+def search(rng, corr_failures, run_cases):
+    import sys
+
+    return D.search_decode(sys.modules[__name__], rng, corr_failures, run_cases)
